@@ -1,7 +1,7 @@
 import PeliteModel.Prim.Basic
 /-!
 Model of `src/base_relocs.rs`: `BaseRelocs::{parse, iter_blocks, fold/for_each}`,
-`IterBlocks::{peek,next}`, `Block::{words,rva_of,type_of}`, `build`.
+`IterBlocks::{peek,next}` (+ the provided `nth`/`count`/`size_hint`), `Block::{words,rva_of,type_of}`, `build`.
 The directory is the byte string `data`; `base` is the machine address of its first byte.
 -/
 namespace Pelite.Relocs
@@ -58,6 +58,63 @@ termination_by data.size - off
 
 def blocks (data : Bytes) : List Block := blocksFrom data 0
 
+/-! ### `IterBlocks` as an iterator object
+
+The state of an `IterBlocks` is the slice `self.data = data[off..]`, i.e. the offset `off`.
+Only `next` is written by hand in the Rust code; `nth`, `count` and `size_hint` are the provided
+methods of `core::iter::Iterator` (loops over `next`), `clone` is derived (copies the slice).
+`IterBlocks` implements neither `DoubleEndedIterator` nor `ExactSizeIterator`. -/
+
+/-- `IterBlocks::next` on the state "remaining data starts at `off`": the block and the new state. -/
+-- src: base_relocs.rs:IterBlocks::next
+def nextBlock (data : Bytes) (off : Nat) : Option (Block × Nat) :=
+  match peek data off with
+  | none => none
+  | some b => some (b, off + step b.size (data.size - off))
+
+theorem nextBlock_decreases {data : Bytes} {off : Nat} {b : Block} {off' : Nat}
+    (h : nextBlock data off = some (b, off')) : data.size - off' < data.size - off := by
+  unfold nextBlock at h
+  cases hp : peek data off with
+  | none => rw [hp] at h; cases h
+  | some b0 =>
+    rw [hp] at h
+    cases h
+    unfold peek at hp
+    simp only at hp
+    split at hp
+    · cases hp
+      have := step_pos (size := le32 data (off+4)) (rem := data.size - off) (le32_lt _ _) (by assumption)
+      simp only; omega
+    · cases hp
+
+/-- `Iterator::nth` (provided method): `self.advance_by(n).ok()?; self.next()`, where `advance_by`
+calls `next` up to `n` times and gives up at the first `None`. -/
+-- src: core::iter::Iterator::nth
+def nthBlock (data : Bytes) : Nat → Nat → Option Block × Nat
+  | off, 0 =>
+    match nextBlock data off with
+    | none => (none, off)
+    | some (b, off') => (some b, off')
+  | off, k + 1 =>
+    match nextBlock data off with
+    | none => (none, off)
+    | some (_, off') => nthBlock data off' k
+
+/-- `Iterator::count` (provided method): `self.fold(0, |n, _| n + 1)`, a loop over `next`. -/
+-- src: core::iter::Iterator::count
+def countBlocks (data : Bytes) (off : Nat) (n : Nat) : Nat :=
+  match h : nextBlock data off with
+  | none => n
+  | some (_, off') =>
+    have := nextBlock_decreases h
+    countBlocks data off' (n + 1)
+termination_by data.size - off
+
+/-- `Iterator::size_hint` (provided method): `(0, None)`. -/
+-- src: core::iter::Iterator::size_hint
+def sizeHintBlocks (_data : Bytes) (_off : Nat) : Nat × Option Nat := (0, none)
+
 -- src: base_relocs.rs:Block::rva_of / type_of
 def rvaOf (va w : Nat) : Nat := wadd32 va (w % 4096)
 def typeOf (w : Nat) : Nat := w / 4096
@@ -66,12 +123,48 @@ def typeOf (w : Nat) : Nat := w / 4096
 def Block.words (data : Bytes) (b : Block) : List Nat :=
   (List.range b.nwords).map (fun i => le16 data (b.off + 8 + 2 * i))
 
-/-- `fold`/`for_each` and the flattened block iterator: non-padding entries in stored order -/
--- src: base_relocs.rs:BaseRelocs::fold
+/-- External iteration: what a caller of the block iterator collects with
+`for b in iter_blocks() { for w in b.words() { if b.type_of(w) != 0 { push((b.rva_of(w), b.type_of(w))) } } }`
+(the non-padding entries in stored order).  The internal iteration `fold`/`for_each` is modelled
+separately below; that the two agree is theorem `C14_fold_eq_flat`. -/
+-- src: base_relocs.rs:IterBlocks + Block::{words, rva_of, type_of}
 def flatBlock (data : Bytes) (b : Block) : List (Nat × Nat) :=
   (b.words data).filterMap (fun w => if typeOf w ≠ 0 then some (rvaOf b.va w, typeOf w) else none)
 
 def flat (data : Bytes) : List (Nat × Nat) := (blocks data).flatMap (flatBlock data)
+
+/-! ### `fold` / `for_each`: internal iteration, the two nested `for` loops of the Rust code -/
+
+/-- inner loop `for word in block.words()` from word index `i` on -/
+-- src: base_relocs.rs:BaseRelocs::fold
+def foldWords {α : Type} (f : α → Nat → Nat → α) (data : Bytes) (b : Block) (i : Nat) (accum : α) : α :=
+  if i < b.nwords then
+    let word := le16 data (b.off + 8 + 2 * i)
+    let ty := typeOf word                                  -- block.type_of(word)
+    if ty ≠ 0 then                                         -- ty != IMAGE_REL_BASED_ABSOLUTE
+      foldWords f data b (i + 1) (f accum (rvaOf b.va word) ty)
+    else foldWords f data b (i + 1) accum
+  else accum
+termination_by b.nwords - i
+
+/-- outer loop `for block in self.iter_blocks()` from iterator state `off` on -/
+-- src: base_relocs.rs:BaseRelocs::fold
+def foldBlocks {α : Type} (f : α → Nat → Nat → α) (data : Bytes) (off : Nat) (accum : α) : α :=
+  match h : nextBlock data off with
+  | none => accum
+  | some (b, off') =>
+    have := nextBlock_decreases h
+    foldBlocks f data off' (foldWords f data b 0 accum)
+termination_by data.size - off
+
+-- src: base_relocs.rs:BaseRelocs::fold
+def fold {α : Type} (f : α → Nat → Nat → α) (init : α) (data : Bytes) : α := foldBlocks f data 0 init
+
+/-- `for_each(f)` is `self.fold((), |(), rva, ty| f(rva, ty))`; the `FnMut` closure `f` is a state
+transformer over whatever it captured (`σ`). -/
+-- src: base_relocs.rs:BaseRelocs::for_each
+def forEach {σ : Type} (f : Nat → Nat → σ → σ) (data : Bytes) (s : σ) : σ :=
+  (fold (fun (acc : Unit × σ) rva ty => ((), f rva ty acc.2)) ((), s) data).2
 
 /-! ### build -/
 
